@@ -60,7 +60,74 @@ pub fn set_verbose(on: bool) {
     VERBOSE.store(on, std::sync::atomic::Ordering::Relaxed);
 }
 
+static LAYOUT: std::sync::atomic::AtomicUsize = std::sync::atomic::AtomicUsize::new(AUTO_LAYOUT);
+
+/// default: the layout is derived from the arguments themselves (so a replay of the same case uses the same one)
+pub const AUTO_LAYOUT: usize = usize::MAX;
+
+/// Argument layout of every CLI run: 0 = as the engine wrote it; 1 = all options first, then the positional arguments;
+/// 2 = first positional, then all options, then the other positionals; 3 = positionals first, options last (in reverse
+/// order). The command line means the same in every layout. Unless an engine sets one, the layout of a run is derived
+/// from its arguments (AUTO_LAYOUT), so all four occur throughout every CLI family.
+pub fn set_layout(l: usize) {
+    LAYOUT.store(l, std::sync::atomic::Ordering::Relaxed);
+}
+
+/// options of `ska` that take a value (everything else starting with '-' is a switch)
+const VALUE_OPTS: [&str; 20] = ["-o", "-k", "-f", "--format", "--min-count", "--min-qual", "--qual-filter", "--threads", "-m", "--min-freq", "--missing", "--filter", "--proportion-reads", "-s", "--skf-file", "-r", "--reference", "-d", "-n", "--depth"];
+
+pub fn rearranged(args: &[&str], layout: usize) -> Vec<String> {
+    if layout == 0 || args.is_empty() {
+        return args.iter().map(|s| s.to_string()).collect();
+    }
+    let sub = args[0].to_string();
+    let mut opts: Vec<Vec<String>> = Vec::new();
+    let mut pos: Vec<String> = Vec::new();
+    let mut i = 1;
+    while i < args.len() {
+        let a = args[i];
+        if a.starts_with('-') && a.len() > 1 && !a[1..2].chars().all(|c| c.is_ascii_digit()) {
+            if VALUE_OPTS.contains(&a) && i + 1 < args.len() {
+                opts.push(vec![a.to_string(), args[i + 1].to_string()]);
+                i += 2;
+            } else {
+                opts.push(vec![a.to_string()]);
+                i += 1;
+            }
+        } else {
+            pos.push(a.to_string());
+            i += 1;
+        }
+    }
+    let mut out = vec![sub];
+    match layout {
+        1 => {
+            out.extend(opts.into_iter().flatten());
+            out.extend(pos);
+        }
+        2 => {
+            let mut p = pos.into_iter();
+            out.extend(p.next());
+            out.extend(opts.into_iter().flatten());
+            out.extend(p);
+        }
+        _ => {
+            out.extend(pos);
+            opts.reverse();
+            out.extend(opts.into_iter().flatten());
+        }
+    }
+    out
+}
+
 pub fn run(args: &[&str], cwd: &str, hash_seed: Option<u64>) -> CliOut {
+    let mut layout = LAYOUT.load(std::sync::atomic::Ordering::Relaxed);
+    if layout == AUTO_LAYOUT {
+        layout = (crate::explore::hash64(&args) % 4) as usize;
+    }
+    let owned = rearranged(args, layout);
+    let args: Vec<&str> = owned.iter().map(|s| s.as_str()).collect();
+    let args = &args[..];
     // every CLI run is bounded: a command that hangs is killed and shows up as exit -9
     let mut c = Command::new("timeout");
     c.args(["-s", "KILL", &cli_timeout_s().to_string()]).arg(exe());
